@@ -3,6 +3,7 @@ C15 — a run visits every time node once, in order, calling hooks in stack orde
 Model: ArmiVerif/Model/Schedule.lean (transcription of operator.py / utils/__init__.py).
 -/
 import ArmiVerif.Model.Schedule
+import ArmiVerif.Model.IfaceStack
 import Mathlib.Tactic.Ring
 import Mathlib.Tactic.Linarith
 import Mathlib.Tactic.FieldSimp
@@ -801,3 +802,373 @@ theorem steps_cumulative_sum (prev : Rat) (cum : List Rat) :
 example : (stepLengthsSimple [10, 20] [1/2, 1] 2).map List.length = [2, 2] := by decide
 
 end ArmiVerif.Schedule
+
+namespace ArmiVerif.IfaceStack
+
+/-! ## Stack construction rules (addInterface / removeInterface / getInterface / createInterfaces) -/
+
+def hits (name function : Option Nat) (i : SI) : Bool :=
+  (name == some i.name) || (function.isSome && i.function == function)
+
+/-- **getInterface**: a returned interface is attached and has the name or function asked for;
+`None` means no attached interface has it; the error means at least two have -/
+theorem getInterface_spec (s : List SI) (name function : Option Nat) :
+    (∀ x, getInterface s name function = .one x → x ∈ s ∧ hits name function x = true
+        ∧ s.filter (hits name function) = [x])
+    ∧ (getInterface s name function = .none ↔ ∀ i ∈ s, hits name function i = false)
+    ∧ (getInterface s name function = .multiple → 2 ≤ (s.filter (hits name function)).length) := by
+  unfold getInterface
+  have hm : (fun i : SI => (name == some i.name) || (function.isSome && i.function == function))
+      = hits name function := rfl
+  rw [hm]
+  cases hf : s.filter (hits name function) with
+  | nil =>
+    refine ⟨by intro x h; simp at h, ?_, by intro h; simp at h⟩
+    simp only [true_iff]
+    intro i hi
+    have := List.filter_eq_nil_iff.mp hf i hi
+    simpa using this
+  | cons a t =>
+    have ha : a ∈ s.filter (hits name function) := by rw [hf]; simp
+    cases t with
+    | nil =>
+      refine ⟨?_, ?_, by intro h; simp at h⟩
+      · intro x h
+        simp at h; subst h
+        exact ⟨(List.mem_filter.mp ha).1, (List.mem_filter.mp ha).2, rfl⟩
+      · simp only [reduceCtorEq, false_iff]
+        intro h
+        have := h a (List.mem_filter.mp ha).1
+        rw [(List.mem_filter.mp ha).2] at this
+        simp at this
+    | cons b t' =>
+      refine ⟨by intro x h; simp at h, ?_, by intro _; simp⟩
+      simp only [reduceCtorEq, false_iff]
+      intro h
+      have := h a (List.mem_filter.mp ha).1
+      rw [(List.mem_filter.mp ha).2] at this
+      simp at this
+
+private theorem byName_none (s : List SI) (n : Nat) (h : getInterface s (some n) none = .none) :
+    n ∉ s.map (·.name) := by
+  have := (getInterface_spec s (some n) none).2.1.mp h
+  intro hn
+  simp only [List.mem_map] at hn
+  obtain ⟨i, hi, rfl⟩ := hn
+  have := this i hi
+  simp [hits] at this
+
+/-- where `addInterface` puts the new interface in a stack of `n`: last, or at the clamped index -/
+def targetPos (n : Nat) (index : Option Int) : Nat :=
+  match index with
+  | none => n
+  | some k => pyIndex n k
+
+/-- Python's `list.insert`: the element lands at the clamped index, everything else keeps its order -/
+theorem pyInsert_spec (l : List SI) (idx : Int) (a : SI) :
+    ∃ pre post, l = pre ++ post ∧ pyInsert l idx a = pre ++ a :: post
+      ∧ pre.length = pyIndex l.length idx ∧ pyIndex l.length idx ≤ l.length := by
+  have hle : pyIndex l.length idx ≤ l.length := by
+    unfold pyIndex; split <;> omega
+  exact ⟨l.take (pyIndex l.length idx), l.drop (pyIndex l.length idx), (List.take_append_drop _ _).symm, rfl,
+    by simp [hle], hle⟩
+
+example : pyIndex 3 (-1) = 2 ∧ pyIndex 3 (-7) = 0 ∧ pyIndex 3 9 = 3 ∧ pyIndex 3 1 = 1 := by decide
+
+private theorem place_spec (base : List SI) (i : SI) (index : Option Int) :
+    ∃ pre post, base = pre ++ post ∧ place base i index = pre ++ i :: post
+      ∧ pre.length = targetPos base.length index := by
+  cases index with
+  | none => exact ⟨base, [], by simp, by simp [place], rfl⟩
+  | some k =>
+    obtain ⟨pre, post, h1, h2, h3, _⟩ := pyInsert_spec base k i
+    exact ⟨pre, post, h1, h2, h3⟩
+
+/-- **addInterface_keeps_order**: a successful `addInterface` leaves the interfaces already attached
+in their relative order (`base`: the old stack, minus the one less-derived interface of the same
+function that the new one replaces, if any) and puts the new interface — with exactly the flags
+requested — at the stated position: last, or at `index` with `list.insert` semantics -/
+theorem addInterface_keeps_order (sub : Nat → Nat → Bool) (s s' : List SI) (i : SI) (index : Option Int)
+    (rev en bf : Bool) (h : addInterface sub s i index rev en bf = .ok s') :
+    ∃ base pre post, (base = s ∨ ∃ f ∈ s, base = s.erase f ∧ f.function = i.function ∧ sub i.klass f.klass = true)
+      ∧ base = pre ++ post ∧ s' = pre ++ withFlags i rev en bf :: post
+      ∧ pre.length = targetPos base.length index := by
+  unfold addInterface at h
+  split at h
+  · simp at h
+  · simp at h
+  · split at h
+    · simp at h
+    · simp only [Res.ok.injEq] at h
+      obtain ⟨pre, post, h1, h2, h3⟩ := place_spec s (withFlags i rev en bf) index
+      exact ⟨s, pre, post, Or.inl rfl, h1, by rw [← h, h2], h3⟩
+    · next f hf =>
+      split at h
+      · simp at h
+      · split at h
+        · next hsub =>
+          simp only [Res.ok.injEq] at h
+          obtain ⟨pre, post, h1, h2, h3⟩ := place_spec (s.erase f) (withFlags i rev en bf) index
+          have hspec := (getInterface_spec s none i.function).1 f hf
+          have hfun : f.function = i.function := by
+            have := hspec.2.1
+            simp [hits] at this
+            exact this.2
+          exact ⟨s.erase f, pre, post, Or.inr ⟨f, hspec.1, rfl, hfun, hsub⟩, h1, by rw [← h, h2], h3⟩
+        · simp at h
+
+/-- a refused or ignored `addInterface` is not `.ok`: the stack object is left alone (the model
+returns no new stack) — and an interface whose name is already attached is always refused -/
+theorem addInterface_duplicate_name (sub : Nat → Nat → Bool) (s : List SI) (i : SI) (index : Option Int)
+    (rev en bf : Bool) (h : i.name ∈ s.map (·.name)) : addInterface sub s i index rev en bf = .raised := by
+  unfold addInterface
+  split
+  · rfl
+  · rfl
+  · next hn => exact absurd h (byName_none s i.name hn)
+
+/-- the operations on a stack -/
+inductive Op
+  | add (i : SI) (index : Option Int) (rev en bf : Bool)
+  | removeName (n : Nat)
+  | removeObj (uid : Nat)
+
+/-- the stack after an operation (refused / ignored operations leave it as it is) -/
+def step (sub : Nat → Nat → Bool) (s : List SI) : Op → List SI
+  | .add i index rev en bf => match addInterface sub s i index rev en bf with
+    | .ok s' => s'
+    | _ => s
+  | .removeName n => match removeByName s n with
+    | some r => r.1
+    | none => s
+  | .removeObj u => (removeByUid s u).1
+
+private theorem nodup_names_erase (s : List SI) (f : SI) (h : (s.map (·.name)).Nodup) :
+    ((s.erase f).map (·.name)).Nodup :=
+  List.Nodup.sublist ((List.erase_sublist).map _) h
+
+/-- **names_unique**: no operation can make two attached interfaces share a name -/
+theorem names_unique_step (sub : Nat → Nat → Bool) (s : List SI) (op : Op)
+    (h : (s.map (·.name)).Nodup) : ((step sub s op).map (·.name)).Nodup := by
+  cases op with
+  | add i index rev en bf =>
+    simp only [step]
+    cases hres : addInterface sub s i index rev en bf with
+    | raised => exact h
+    | ignored => exact h
+    | ok s' =>
+      simp only []
+      obtain ⟨base, pre, post, hbase, hsplit, hs', _⟩ := addInterface_keeps_order sub s s' i index rev en bf hres
+      have hnew : i.name ∉ s.map (·.name) := by
+        intro hmem
+        rw [addInterface_duplicate_name sub s i index rev en bf hmem] at hres
+        simp at hres
+      have hb : (base.map (·.name)).Nodup ∧ i.name ∉ base.map (·.name) := by
+        rcases hbase with rfl | ⟨f, _, rfl, _, _⟩
+        · exact ⟨h, hnew⟩
+        · exact ⟨nodup_names_erase s f h, fun hm => hnew (((List.erase_sublist).map _).subset hm)⟩
+      rw [hs']
+      rw [hsplit] at hb
+      simp only [List.map_append, List.map_cons, withFlags] at hb ⊢
+      have hperm : (pre.map (·.name) ++ i.name :: post.map (·.name)).Perm
+          (i.name :: (pre.map (·.name) ++ post.map (·.name))) := List.perm_middle
+      rw [hperm.nodup_iff, List.nodup_cons]
+      exact ⟨hb.2, hb.1⟩
+  | removeName n =>
+    simp only [step]
+    unfold removeByName
+    split
+    · next r hr =>
+      split at hr
+      · simp at hr
+      · simp at hr; subst hr; exact nodup_names_erase _ _ h
+      · simp at hr; subst hr; exact h
+    · exact h
+  | removeObj u =>
+    simp only [step]
+    unfold removeByUid
+    split
+    · exact nodup_names_erase _ _ h
+    · exact h
+
+/-- **names_unique**, for any sequence of add / remove operations starting from the empty stack -/
+theorem names_unique (sub : Nat → Nat → Bool) (ops : List Op) :
+    ((ops.foldl (step sub) []).map (·.name)).Nodup := by
+  have : ∀ s : List SI, (s.map (·.name)).Nodup → ((ops.foldl (step sub) s).map (·.name)).Nodup := by
+    induction ops with
+    | nil => intro s h; exact h
+    | cons op rest ih => intro s h; exact ih _ (names_unique_step sub s op h)
+  exact this [] (by simp)
+
+/-! ### createInterfaces: ordering by ORDER -/
+
+private theorem insByOrder_perm (a : Info) (l : List Info) : (insByOrder a l).Perm (a :: l) := by
+  induction l with
+  | nil => exact List.Perm.refl _
+  | cons b t ih =>
+    unfold insByOrder
+    split
+    · exact List.Perm.refl _
+    · exact (List.Perm.cons b ih).trans (List.Perm.swap a b t)
+
+theorem sortByOrder_perm (l : List Info) : (sortByOrder l).Perm l := by
+  induction l with
+  | nil => exact List.Perm.refl _
+  | cons a t ih => exact (insByOrder_perm a _).trans (List.Perm.cons a ih)
+
+private theorem insByOrder_sorted (a : Info) (l : List Info)
+    (hl : l.Pairwise (fun x y => x.order ≤ y.order)) :
+    (insByOrder a l).Pairwise (fun x y => x.order ≤ y.order) := by
+  induction l with
+  | nil => simp [insByOrder]
+  | cons b t ih =>
+    unfold insByOrder
+    rw [List.pairwise_cons] at hl
+    split
+    · next hab =>
+      rw [List.pairwise_cons]
+      refine ⟨?_, List.pairwise_cons.mpr hl⟩
+      intro x hx
+      rcases List.mem_cons.mp hx with rfl | hx
+      · exact hab
+      · exact le_trans hab (hl.1 x hx)
+    · next hab =>
+      have hba : b.order ≤ a.order := le_of_lt (not_le.mp hab)
+      rw [List.pairwise_cons]
+      refine ⟨?_, ih hl.2⟩
+      intro x hx
+      rcases List.mem_cons.mp ((insByOrder_perm a t).mem_iff.mp hx) with rfl | hx
+      · exact hba
+      · exact hl.1 x hx
+
+/-- the interfaces are considered in non-decreasing ORDER -/
+theorem sortByOrder_sorted (l : List Info) : (sortByOrder l).Pairwise (fun x y => x.order ≤ y.order) := by
+  induction l with
+  | nil => simp [sortByOrder]
+  | cons a t ih => exact insByOrder_sorted a _ ih
+
+private theorem insByOrder_filter (a : Info) (l : List Info) (o : Rat) :
+    (insByOrder a l).filter (fun x => x.order = o) = (a :: l).filter (fun x => x.order = o) := by
+  induction l with
+  | nil => rfl
+  | cons b t ih =>
+    unfold insByOrder
+    split
+    · rfl
+    · next hab =>
+      have hlt : b.order < a.order := not_le.mp hab
+      by_cases ha : a.order = o
+      · have hb : ¬ b.order = o := by intro h; rw [ha, h] at hlt; exact lt_irrefl _ hlt
+        simp only [List.filter_cons, hb, decide_false, Bool.false_eq_true, if_false, ha, decide_true, if_true] at ih ⊢
+        exact ih
+      · simp only [List.filter_cons, ha, decide_false, Bool.false_eq_true, if_false] at ih ⊢
+        rw [ih]
+
+/-- the sort is stable: interfaces of equal ORDER stay in registration order -/
+theorem sortByOrder_stable (l : List Info) (o : Rat) :
+    (sortByOrder l).filter (fun x => x.order = o) = l.filter (fun x => x.order = o) := by
+  induction l with
+  | nil => rfl
+  | cons a t ih =>
+    unfold sortByOrder
+    rw [insByOrder_filter, List.filter_cons, List.filter_cons, ih]
+
+/-- the object `addInterface` attaches for an exposed interface -/
+def attached (a : Info) : SI := withFlags a.iface a.rev a.en a.bf
+
+private theorem addAll_append (sub : Nat → Nat → Bool) (l : List Info) (s : List SI)
+    (hidx : ∀ a ∈ l, a.index = none)
+    (hnames : (l.map (·.iface.name)).Nodup)
+    (hdisj : ∀ a ∈ l, a.iface.name ∉ s.map (·.name))
+    (hfun : (l.filterMap (·.iface.function)).Nodup)
+    (hfdisj : ∀ a ∈ l, ∀ f, a.iface.function = some f → some f ∉ s.map (·.function)) :
+    addAll sub l s = some (s ++ l.map attached) := by
+  induction l generalizing s with
+  | nil => simp [addAll]
+  | cons a rest ih =>
+    have hn : getInterface s (some a.iface.name) none = .none := by
+      rw [(getInterface_spec s _ _).2.1]
+      intro i hi
+      have := hdisj a (by simp)
+      simp only [List.mem_map, not_exists, not_and] at this
+      simp [hits]
+      exact fun h => this i hi h.symm
+    have hf : getInterface s none a.iface.function = .none := by
+      rw [(getInterface_spec s _ _).2.1]
+      intro i hi
+      cases hfa : a.iface.function with
+      | none => simp [hits]
+      | some f =>
+        have := hfdisj a (by simp) f hfa
+        simp only [List.mem_map, not_exists, not_and] at this
+        simp [hits]
+        exact this i hi
+    unfold addAll addInterface
+    rw [hn, hf]
+    simp only [place, hidx a (by simp)]
+    simp only [List.map_cons, List.nodup_cons] at hnames
+    rw [ih (s ++ [withFlags a.iface a.rev a.en a.bf]) (fun x hx => hidx x (by simp [hx])) hnames.2]
+    · simp [attached]
+    · intro x hx
+      simp only [List.map_append, List.mem_append, List.map_cons, List.map_nil, List.mem_singleton, withFlags]
+      rintro (h | h)
+      · exact hdisj x (by simp [hx]) h
+      · exact hnames.1 (List.mem_map.mpr ⟨x, hx, h⟩)
+    · cases hfa : a.iface.function with
+      | none => simpa [List.filterMap_cons, hfa] using hfun
+      | some f =>
+        simp only [List.filterMap_cons, hfa, List.nodup_cons] at hfun
+        exact hfun.2
+    · intro x hx f hxf
+      simp only [List.map_append, List.mem_append, List.map_cons, List.map_nil, List.mem_singleton, withFlags]
+      rintro (h | h)
+      · exact hfdisj x (by simp [hx]) f hxf h
+      · cases hfa : a.iface.function with
+        | none => rw [hfa] at h; simp at h
+        | some g =>
+          rw [hfa] at h
+          simp only [List.filterMap_cons, hfa, List.nodup_cons] at hfun
+          have : g = f := by simpa using h.symm
+          subst this
+          exact hfun.1 (List.mem_filterMap.mpr ⟨x, hx, hxf⟩)
+
+/-- **createInterfaces_sorted**: when the exposed interfaces have pairwise different names and
+functions (none clashing with what is already attached) and none asks for an index, the stack after
+`createInterfaces` is the old stack followed by ALL of them, sorted by ORDER, ties in registration
+order (`sortByOrder_sorted`, `sortByOrder_stable`, `sortByOrder_perm`), each with its requested flags -/
+theorem createInterfaces_sorted (sub : Nat → Nat → Bool) (infos : List Info) (s : List SI)
+    (hidx : ∀ a ∈ infos, a.index = none)
+    (hnames : (infos.map (·.iface.name)).Nodup)
+    (hdisj : ∀ a ∈ infos, a.iface.name ∉ s.map (·.name))
+    (hfun : (infos.filterMap (·.iface.function)).Nodup)
+    (hfdisj : ∀ a ∈ infos, ∀ f, a.iface.function = some f → some f ∉ s.map (·.function)) :
+    createInterfaces sub infos s = some (s ++ (sortByOrder infos).map attached)
+    ∧ (sortByOrder infos).Pairwise (fun x y => x.order ≤ y.order)
+    ∧ ∀ o, (sortByOrder infos).filter (fun x => x.order = o) = infos.filter (fun x => x.order = o) := by
+  have hp := sortByOrder_perm infos
+  refine ⟨?_, sortByOrder_sorted infos, sortByOrder_stable infos⟩
+  unfold createInterfaces
+  exact addAll_append sub _ s
+    (fun a ha => hidx a (hp.mem_iff.mp ha))
+    ((hp.map _).nodup_iff.mpr hnames)
+    (fun a ha => hdisj a (hp.mem_iff.mp ha))
+    ((hp.filterMap _).nodup_iff.mpr hfun)
+    (fun a ha => hfdisj a (hp.mem_iff.mp ha))
+
+/-- two interfaces of equal ORDER keep their registration order, a lower ORDER goes first, flags as requested -/
+example : (createInterfaces (fun a b => a == b)
+      [⟨3, ⟨1, 11, none, 0, true, false, false⟩, none, false, true, false⟩,
+       ⟨1, ⟨2, 12, some 5, 1, true, false, false⟩, none, true, false, true⟩,
+       ⟨1, ⟨3, 13, none, 2, true, false, false⟩, none, false, true, false⟩] []).map
+        (fun s => s.map (fun i => (i.uid, i.enabled, i.bolForce, i.reverseAtEOL)))
+    = some [(2, false, true, true), (3, true, false, false), (1, true, false, false)] := by
+  decide
+
+/-- a more derived interface of the same function replaces the attached one, at the requested index -/
+example : addInterface (fun a b => a == b || (a == 2 && b == 1))
+      [⟨1, 10, none, 0, true, false, false⟩, ⟨2, 11, some 5, 1, true, false, false⟩, ⟨3, 12, none, 0, true, false, false⟩]
+      ⟨4, 13, some 5, 2, true, false, false⟩ (some (-1)) false true false
+    = .ok [⟨1, 10, none, 0, true, false, false⟩, ⟨4, 13, some 5, 2, true, false, false⟩, ⟨3, 12, none, 0, true, false, false⟩] := by
+  decide
+
+end ArmiVerif.IfaceStack
